@@ -115,6 +115,13 @@ CLAIMED = {
         "DESIGN.md section 8, C07",
         "seeded rotation schedules with message faults; probe-after-every-step invariant + bounded freshness",
     ),
+    "C18": (
+        "exploration",
+        "Node level: 1-3 key pairs per run produced by the real key generation - random keys from seeds with 0-4 leading zero bytes (optionally searched until the public key starts with a zero byte), password keys from a dictionary incl. empty, blank, unicode, NUL and 1 KiB passwords, each derived twice - and 2-5 real nodes configured from the printed text (private key with or without public key; password nodes by password or by the printed key, so one password appears in two forms), trusted sets any subset of the printed public keys. Oracles: key generation and public_key_from_private_key agree and never fail on generated text; every node starts; after 12 s on a reliable network exactly the mutually trusting pairs (by key material) are connected; a crashed and restarted node uses the same public key as before and as printed.",
+        "Trusted: simulator seams; ring's Ed25519 as the reference for what a seed's public key is. The text codec sweep over all byte strings of length <= 2 of the quantifier is a pure-function sweep and not part of this check; what is decided here is the multi-node / multi-run part.",
+        "DESIGN.md section 8, C18",
+        "seeded key material with shaped seeds; mesh forms iff trust by key material",
+    ),
 }
 
 NOT_APPLICABLE = {
